@@ -18,7 +18,7 @@ import (
 
 func TestMain(m *testing.M) { evid.Main("C04", m) }
 
-var preludePrg = goja.MustCompile("c04prelude.js", preludeJS, false)
+var preludePrg = goja.MustCompile("c04prelude.js", esmodel.PreludeJS, false)
 
 // Subject is one object of a case.
 type Subject struct {
